@@ -16,13 +16,28 @@ E = {
 }
 
 # id -> (engine, technique, level text, level note, design ref)
+E1_NOTE = "Trusts the from-scratch reference interpreter (Clean), the instrumented checkers and the task-side / checker-side logs; bounded to <= 8 tasks, <= 8 resources, <= 10 history steps per scenario; task programs are interpreted scripts over simulated resource families."
 CHECKS = {
+  "C01": ("e1", "deterministic simulation: seeded programs x worlds x histories against the real pie crate; outputs and resource contents of every returning session vs a from-scratch reference interpreter",
+          "Seeded search over class-W task programs (dynamic require/read/write structure, all checker kinds, five task type families), initial worlds and histories of external changes and top-down sessions; after every returning session the outputs and the world are compared with a from-scratch build of the current state; validation of every reused task is checked through serial-numbered stamps. Evidence over sampled scenarios.", E1_NOTE, "5/C01"),
+  "C02": ("e1", "deterministic simulation: every execution justified from the checker-side log (serial-numbered stamps), creation-order validation, idempotent repeat, subset-of-clean for exact checkers",
+          "Same scenario space as C01; per session: at most one execution per task, every re-execution preceded by an inconsistent verdict on a dependency of the task's latest execution, dependencies validated in creation order with early stop, repeat sessions execute nothing, exact-checker programs execute a subset of the from-scratch build.", E1_NOTE, "5/C02"),
+  "C03": ("e1", "deterministic simulation: completely reported bottom-up builds followed by probing every known task, vs from-scratch reference",
+          "Seeded histories of change batches reported completely to bottom-up builds (pure bottom-up, and mixed with all-roots top-down sessions); afterwards requiring every known task must execute nothing and return from-scratch outputs; every inconsistent verdict seen during the build must lead to an execution; cached reuse during the build only when nothing scheduled is reachable.", E1_NOTE, "5/C03"),
+  "C04": ("e1", "deterministic simulation: bottom-up executions justified by inconsistent verdicts (checker-side log), at most once, dependency order",
+          "Same histories as C03; every execution of a previously completed task in a bottom-up build must follow an inconsistent/erroneous verdict on one of its own recorded dependencies; at most one execution per task; no task executes while a scheduled task it transitively requires still waits.", E1_NOTE, "5/C04"),
   "C10": ("e2", "deterministic simulation: seeded operation histories over the real DAG vs reference graph, invariants after every op",
           "Seeded search over DAG operation histories (incl. operations on removed nodes, re-insertions, cycle-closing edges) with rank-bijection / ascending-edge / exact-cycle-verdict / rollback invariants evaluated after every operation against a DFS reference. Evidence over the sampled histories, not proof.",
           "Trusts the naive reference graph; bounded to <= 12 live nodes and <= 120 operations per history; hash iteration order controlled through the guarded seeded-hasher seam.", "5/C10"),
   "C11": ("e2", "deterministic simulation: seeded operation histories over the real DAG, every public query vs reference graph after every op",
           "Same histories as C10; after every operation every public query (direct/transitive edges, ordered incoming/outgoing adjacency with data, both descendant iterators, topo_cmp, removal results) is compared for all ordered pairs of live and dead handles with the reference graph. Evidence over the sampled histories.",
           "Trusts the naive reference graph; bounded to <= 12 live nodes and <= 120 operations per history.", "5/C11"),
+  "C16": ("e1", "deterministic simulation with a seeded-hasher seam: each history replayed under other hash seeds, after unrelated instances, in a fresh thread and with OS-random seeds; complete event logs compared",
+          "Every scenario of the top-down and bottom-up mixes is replayed four times under perturbations that must not matter (hash seed, unrelated instances before, fresh thread, OS-random seeds); the complete unified event log (task-side, checker-side, resource-side and tracker events with stamps) must be identical.", E1_NOTE, "5/C16"),
+  "C17": ("e1", "deterministic simulation: full-fidelity recording tracker cross-checked against task-side and checker-side logs; composite children compared; EventTracker and helpers vs reference scan",
+          "In every scenario the tracker is Composite(Rec, Composite(EventTracker, Rec)); the two recorders must receive identical streams, the stream must be stack-nested, executions / check verdicts / require outputs must match the task-side and checker-side logs, and EventTracker contents, indices and every helper must agree with a reference scan.", E1_NOTE, "5/C17"),
+  "C19": ("e1", "deterministic simulation with crash injection: panics at arbitrary ticks (task ops, write closures, checker calls), instance kept and used again; later sessions vs from-scratch reference",
+          "Class-W scenarios with injected crashes at seeded ticks inside sessions (any operation of any task at any depth, inside write functions and checker calls); the instance is reused: every later top-down session must return from-scratch results, abort only for an existing violation or with a listed stale-edge signature, and never with an internal error.", E1_NOTE, "5/C19"),
 }
 
 NOT_APPLICABLE = {
